@@ -127,7 +127,9 @@ def run(ctx: Context, rep) -> None:
                 else "arg_is_not_none"
         if isinstance(e, ast.Name) and e.id == PARAM:
             return "arg_truthy"
-        if isinstance(e, ast.Name) and "stored" in role(e) and "arg" not in role(e):
+        if isinstance(e, (ast.Name, ast.Attribute)) and "stored" in role(e) \
+                and "arg" not in role(e) and not (
+                    isinstance(e, ast.Attribute) and e.attr == "written_examples"):
             return "stored_truthy"
         return None
 
